@@ -208,3 +208,25 @@ package stdlib
 //@ assume-contract github.com/gogo/protobuf/proto.Unmarshal
 //@   ensures result == nil ==> protodecoded(pb) == bytes(buf) [ASSUMED-may-panic]
 //@   modifies ghost(protodecoded)
+
+// ---- prometheus (ASSUMED: With(labels) yields the series for the labels' current content; Observe/Inc add one sample) ----
+
+//@ assume-contract (*github.com/prometheus/client_golang/prometheus.HistogramVec).With
+//@   ghost label HVW
+//@   pure
+//@   nopanic
+//@   ensures result != nil [ASSUMED]
+
+//@ assume-contract (*github.com/prometheus/client_golang/prometheus.CounterVec).With
+//@   ghost label CVW
+//@   pure
+//@   nopanic
+//@   ensures result != nil [ASSUMED]
+
+//@ assume-contract time.Since
+//@   pure
+//@   nopanic
+
+//@ assume-contract (time.Duration).Seconds
+//@   pure
+//@   nopanic
